@@ -286,6 +286,11 @@ func runC11(c *Ctx) {
 	// ---- (8) SUBDIR-REMAP-TOTAL
 	c11SubdirRemap(c, pkFI)
 	c11ResolverKept(c, pkImg)
+	c11PublicTransitive(c, pkImg)
+	if q := c.P.Pkg("private/pkg/protoencoding"); q != nil {
+		c11ClearBeforeMerge(c, q)
+	}
+	c11BuiltinOnlyAfterMiss(c, "WKT-AFTER-MISS", []string{"private/buf/cmd/buf/command/export", "private/bufpkg/bufmodule"})
 	// an image file written over a longer one must be truncated; archive member names are validated before any
 	// component is stripped (shared with C07/C15 and C13)
 	ruleOpenTruncates(c, "OPEN-TRUNCATES")
